@@ -1,7 +1,7 @@
 """Configuration of ./check C03 (see pylib/props.py)."""
 CFG = dict(
         coq=["props/C03.vo"],
-        tie=["gen/Tie_C03.vo"],
+        tie=["gen/Tie_C03.vo", "gen/Tie_Code_RowAddr.vo"],
         model_vo=["model/Sorter.vo", "model/SorterSpec.vo", "model/Ingest.vo", "model/IngestSpec.vo"],
         extract="Ex_C03",
         level_text="Theorems C03_ingest_wf and C03_sorter_any_rows_wf: every table produced by the transliterated ingest (any "
